@@ -666,6 +666,10 @@ func callChainMentions(v ssa.Value, method string) bool {
 			if cc.Call.IsInvoke() {
 				walk(cc.Call.Value)
 			}
+			// an expression moved into a small helper is still that expression
+			for _, r := range enterHelper(cc) {
+				walk(r)
+			}
 			return
 		}
 		if in, ok := v.(ssa.Instruction); ok {
